@@ -153,7 +153,8 @@ ChildResult run_in_child(const std::function<bytes()> &fn, int timeout_s)
   close(pfd[1]);
   bytes data;
   uint8_t buf[65536];
-  time_t t0 = time(NULL);
+  struct timespec ts0;
+  clock_gettime(CLOCK_MONOTONIC, &ts0);
   bool timed_out = false;
   for (;;)
   {
@@ -171,7 +172,9 @@ ChildResult run_in_child(const std::function<bytes()> &fn, int timeout_s)
       else if (errno != EINTR)
         break;
     }
-    if (time(NULL) - t0 > timeout_s)
+    struct timespec ts1;
+    clock_gettime(CLOCK_MONOTONIC, &ts1);
+    if (ts1.tv_sec - ts0.tv_sec > timeout_s)
     {
       timed_out = true;
       kill(pid, SIGKILL);
